@@ -3831,6 +3831,7 @@ let bc_wf_why num_regs fuse p =
 type rop =
 | REnter
 | RMov of z
+| RMovJ of z
 | RMovU of z
 | RGet of z
 | RSet of z * z
@@ -3857,6 +3858,14 @@ let r_probe pol mn mx ok t1 d =
   if t_check t1 (if Z.ltb d Z0 then mn else mx)
   then TOk t1
   else t_make_accessible pol ok t1 mn (Z.add mx (Zpos XH))
+
+(** val r_probe_jit : policy -> z -> z -> bool -> rtape -> z -> rtape tres **)
+
+let r_probe_jit pol mn mx ok t1 d =
+  let probe = if Z.ltb d Z0 then mn else mx in
+  if t_check t1 probe
+  then TOk t1
+  else t_make_accessible pol ok t1 probe (Z.add probe (Zpos XH))
 
 (** val r_run :
     policy -> z -> z -> rop list -> bool list -> rtape -> (robs list * rtape)
@@ -3896,6 +3905,23 @@ let rec r_run pol mn mx ops allocs t0 =
         | RawOob i -> RawOob i
         | TooLarge -> TooLarge
         | AllocFail -> AllocFail)
+     | RMovJ d ->
+       let t1 = t_mov t0 d in
+       let probe = if Z.ltb d Z0 then mn else mx in
+       let (ok, allocs') =
+         if grows t1 probe (Z.add probe (Zpos XH))
+         then next_alloc allocs
+         else (true, allocs)
+       in
+       (match r_probe_jit pol mn mx ok t1 d with
+        | TOk t' ->
+          (match r_run pol mn mx rest allocs' t' with
+           | TOk a ->
+             let (vs, tf) = a in TOk (((RProbe (t_check t1 probe)) :: vs), tf)
+           | x -> x)
+        | RawOob i -> RawOob i
+        | TooLarge -> TooLarge
+        | AllocFail -> AllocFail)
      | RMovU d -> r_run pol mn mx rest allocs (t_mov t0 d)
      | RGet k ->
        (match r_get t0 k with
@@ -3930,6 +3956,7 @@ let rec r_spec ops cells pos =
   | r :: rest ->
     (match r with
      | RMov d -> r_spec rest cells (Z.add pos d)
+     | RMovJ d -> r_spec rest cells (Z.add pos d)
      | RMovU d -> r_spec rest cells (Z.add pos d)
      | RGet k -> (cells (Z.add pos k)) :: (r_spec rest cells pos)
      | RSet (k, v) ->
@@ -3945,6 +3972,8 @@ let rec rops_ok mn mx ops pos =
     (match r with
      | REnter -> rops_ok mn mx rest pos
      | RMov d -> (&&) (small (Z.add pos d)) (rops_ok mn mx rest (Z.add pos d))
+     | RMovJ d ->
+       (&&) (small (Z.add pos d)) (rops_ok mn mx rest (Z.add pos d))
      | RGet k ->
        (&&) ((&&) (Z.leb mn k) (Z.leb k mx)) (rops_ok mn mx rest pos)
      | RSet (k, _) ->
